@@ -259,7 +259,7 @@ def shard_run(arg):
 
 def run(tier, seed, work):
     res = vp.Result("C06", tier, seed, "exploration")
-    n = 1200 if tier == "quick" else 12000
+    n = 5000 if tier == "quick" else 40000
     for d in vp.pmap(shard_run, [(seed, s, work) for s in vp.split(range(n), vp.NCPU)]):
         res.merge(d)
     res.rule = ("evaluations = phase executions whose context dump was compared with the generated inputs. distinct_nontrivial = distinct (phase, set of entry kinds in <platform>/env "
